@@ -134,7 +134,9 @@ def check(ctx, replay=None):
         spellings = rep.get("spellings", spellings)
     dumps = []
     for i in range(24 if th else 4):
-        rc, out, err = ctx.run([os.path.join(bindir, "archdump")], input=json.dumps(spellings), timeout=120)
+        # (the odd-numbered processes look the spellings up in reverse order: what a spelling resolves to must not depend on
+        # which lookups came before it in the process)
+        rc, out, err = ctx.run([os.path.join(bindir, "archdump")], input=json.dumps(spellings if i % 2 == 0 else spellings[::-1]), timeout=120)
         if rc != 0:
             raise vlib.Machinery("archdump failed: " + err[-1000:])
         dumps.append(json.loads(out))
@@ -151,9 +153,10 @@ def check(ctx, replay=None):
             if a0["names"] != a1["names"]:
                 diff = sorted(k for k in a0["names"] if a0["names"].get(k) != a1["names"].get(k))[:5]
                 viol.append(("name lookups of %s differ between two process runs (e.g. %s)" % (a0["var"], diff), {"arch": a0["var"], "names": diff}))
-        for l0, l1 in zip(d0["lookups"], d["lookups"]):
-            if l0 != l1:
-                viol.append(("GetInfo(%r) differs between process runs" % l0["in"], {"spelling": l0["in"]}))
+        by_in = {l["in"]: l for l in d["lookups"]}
+        for l0 in d0["lookups"]:
+            if l0 != by_in.get(l0["in"]):
+                viol.append(("GetInfo(%r) differs between process runs / lookup orders" % l0["in"], {"spelling": l0["in"]}))
     for v in tabled:
         a = archs[v]
         nums = {int(k): n for k, n in a["numbers"].items()}
